@@ -242,6 +242,10 @@ func (c *c11) Judge(cx *Ctx, it *Item, outs []*run.Outcome) Verdict {
 	if o.M.Hinged {
 		return Verdict{Status: Held, Extra: map[string]int64{"not_asserted_variable_order": 1}}
 	}
+	if o.M.GroupOrderObservable {
+		// a nested bagof/setof with several groups inside a collecting call: the outer list's order is the open group order
+		return Verdict{Status: Held, Extra: map[string]int64{"not_asserted_nested_group_order": 1}}
+	}
 	r := compareRun(&m.DiffMeta, o, outs[0], false)
 	v := Verdict{Status: r.Status, Msg: r.Msg}
 	v.NonTrivial = o.M.Groups >= 2
